@@ -16,7 +16,9 @@ package transport
 // outcome (results of every Add, finalized snapshot directories and the bytes of
 // every file in them, InstallSnapshot notifications, directories left after
 // timeout + gc ticks) equals what a reference receiver produces for SOME serial
-// order of the concurrent calls.
+// order of the concurrent calls. Tick is not claimed to be atomic: the clock
+// moves at once, the collector then judges the tracked snapshots one by one; the
+// serial orders interleave these steps of every tick of T separately.
 
 import (
 	"bytes"
@@ -539,7 +541,7 @@ func ccGenCase(t *rapid.T, sfs vfs.IFS) *ccCase {
 	c.gcTick = rapid.Uint64Range(1, 3).Draw(t, "gctick")
 	c.timeout = rapid.SampledFrom([]uint64{1, 2, 2, 3, 3, 4}).Draw(t, "timeout")
 	mode := rapid.SampledFrom([]string{"stream", "stream", "file", "file"}).Draw(t, "mode")
-	blocks := rapid.SampledFrom([]int{1, 1, 1, 1, 1, 1, 1, 1, 1, 1, 1, 1, 1, 1, 1, 1, 1, 1, 1, 1, 1, 1, 1, 1, 1, 1, 1, 1, 2, 2, 3, 4}).Draw(t, "blocks")
+	blocks := rapid.SampledFrom([]int{1, 1, 1, 1, 1, 1, 1, 1, 1, 1, 1, 1, 1, 1, 1, 1, 1, 1, 1, 1, 1, 1, 1, 1, 1, 1, 1, 1, 1, 2, 3, 4}).Draw(t, "blocks")
 	if blocks > 1 {
 		c.chunkSize = rapid.SampledFrom([]uint64{1 << 20, 2 << 20, 3 << 19}).Draw(t, "chunksize")
 	} else {
@@ -1266,7 +1268,7 @@ func TestVF_C15_ConcurrentReceive(t *testing.T) {
 			"on goroutine A, parked by the harness file system right before its p-th operation (file system call, snapshot directory lookup, callback; p over all operations of that call, learnt by a dry run); "+
 			"while A is parked goroutine B delivers 1-2 chunks (first chunk(s) of the retry / next chunk of the other stream / duplicate of chunk j) and goroutine T ticks 0..timeout+gc times; A is released, "+
 			"the rest of the retry and of the other stream follow from one goroutine, then timeout+gc+1 ticks. Oracle: results of every Add, finalized snapshots (bytes, validator, load) and notifications equal a reference "+
-			"receiver's for some serial order of A, B's adds and the ticks; non-trivial = A was parked inside Add while B's Add ran (returned or observed blocked) and the stream has >= 3 chunks")
+			"receiver's for some serial order of A, B's adds and the steps of the ticks (clock step, then one collector step per key A or B touches); non-trivial = A was parked inside Add while B's Add ran (returned or observed blocked) and the stream has >= 3 chunks")
 	defer st.Flush()
 	st.Set("blocked_wait_ms", int(ccBlockedWait/time.Millisecond))
 	rapid.Check(t, ccProp(st))
